@@ -318,6 +318,13 @@ def scriptOf (st : PState) (a : Proto.Args) : List (Option Fill) × Nat :=
     (List.replicate idle .none ++ [some ⟨streamChunk st.seed st.devPos n, a.nat "claim"⟩], n)
   else (List.replicate idle .none, 0)
 
+/-- UTF-8 encoding of a Unicode scalar value (`char::encode_utf8`) -/
+def utf8 (c : Nat) : List Nat :=
+  if c < 0x80 then [c]
+  else if c < 0x800 then [0xC0 + c / 64, 0x80 + c % 64]
+  else if c < 0x10000 then [0xE0 + c / 4096, 0x80 + c / 64 % 64, 0x80 + c % 64]
+  else [0xF0 + c / 262144 % 8, 0x80 + c / 4096 % 64, 0x80 + c / 64 % 64, 0x80 + c % 64]
+
 def txBytes (a : Proto.Args) (ascii : Bool) : List Nat :=
   let l := streamChunk (a.nat "g") 0 (a.nat "n")
   if ascii then l.map (· % 128) else l
@@ -345,6 +352,8 @@ def handle (st : PState) (op : String) (a : Proto.Args) : PState × String :=
     | "send" => fin (step A0 st.c (.sendBytes [a.nat "b"])) 0
     | "send_bytes" => fin (step A0 st.c (.sendBytes (txBytes a false))) 0
     | "write_str" => fin (step A0 st.c (.sendBytes (txBytes a true))) 0
+    -- `fmt::Write::write_char` (provided method): `write_str(c.encode_utf8(..))`
+    | "write_char" => fin (step A0 st.c (.sendBytes (utf8 (a.nat "cp")))) 0
     | "write" =>
       let bs := txBytes a false
       let r := step A0 st.c (.write bs)
